@@ -101,13 +101,21 @@ const KEYS: [&str; 8] = ["", "k", "key:é", "a\u{0}b", "\u{10FFFF}", "with space
 
 /// deltas of every CRDT kind and shape; keys made distinct inside one batch
 fn gen_deltas(rng: &mut Rng, out: &mut Out, n: usize) -> Vec<ReplicationDelta> {
-    let pool = c07::reachable_pool(rng, 12, out);
+    // forked generators: what the shared value generators draw (it can depend on HashMap iteration
+    // order) must not shift this harness' own random stream
+    let mut prng = Rng::new(rng.next());
+    let mut pool = c07::reachable_pool(&mut prng, 12, out);
+    // (the stored values come out of a HashMap: canonical order, so that an index picks the same value on every run)
+    pool.sort_by_key(show_real);
     let mut ds = Vec::new();
     for i in 0..n {
         let v: ReplicatedValue = match rng.below(10) {
             0..=3 => c07::random_value(rng).to_real(),
             4..=5 if !pool.is_empty() => pool[rng.below(pool.len() as u64) as usize].clone(),
-            6 => c07::api_crdt_value(rng),
+            6 => {
+                let mut arng = Rng::new(rng.next());
+                c07::api_crdt_value(&mut arng)
+            }
             7 => {
                 // many hash fields
                 let mut h = std::collections::BTreeMap::new();
@@ -330,7 +338,10 @@ fn payload_mutations(b: &[u8], rng: &mut Rng, dense: bool) -> Vec<(Vec<u8>, &'st
             continue;
         }
         for val in [b[p] ^ (1 << rng.below(8)), 0, 1, 2, 0xFF] {
-            if val != b[p] && (dense || rng.chance(1, 2)) {
+            // (the draw comes first: the random stream must not depend on the payload BYTES, whose map
+            // order differs from run to run)
+            let take = dense || rng.chance(1, 2);
+            if val != b[p] && take {
                 let mut x = b.to_vec();
                 x[p] = val;
                 v.push((x, "byte"));
